@@ -1306,6 +1306,23 @@ impl MachineState {
 }
 
 impl Machine {
+    // when a dynamic call is retried, the clock value it was called with must be
+    // back in `cc` before the search for its next living clause: other dynamic
+    // calls made since then have left their own (later) values there.
+    #[inline]
+    fn restore_cc_on_dynamic_retry(&mut self) {
+        if let FirstOrNext::Next = self.machine_st.dynamic_mode {
+            let b = self.machine_st.b;
+            let n = self.machine_st.stack.index_or_frame(b).prelude.num_cells;
+
+            self.machine_st.cc = unsafe {
+                self.machine_st.stack[stack_loc!(OrFrame, b, n - 1)]
+                    .to_fixnum_or_cut_point_unchecked()
+            }
+            .get_num() as usize;
+        }
+    }
+
     pub(super) fn find_living_dynamic_else(&self, mut p: usize) -> Option<(usize, usize)> {
         loop {
             match self.code[p] {
@@ -1761,6 +1778,8 @@ impl Machine {
                             self.machine_st.cc = self.machine_st.global_clock;
                         }
 
+                        self.restore_cc_on_dynamic_retry();
+
                         let p = self.machine_st.p;
 
                         match self.find_living_dynamic_else(p) {
@@ -1845,6 +1864,8 @@ impl Machine {
                         }
                     }
                     &Instruction::DynamicInternalElse(..) => {
+                        self.restore_cc_on_dynamic_retry();
+
                         let p = self.machine_st.p;
 
                         match self.find_living_dynamic_else(p) {
@@ -3669,6 +3690,8 @@ impl Machine {
                                 }
                             }
                             IndexingLine::DynamicIndexedChoice(_) => {
+                                self.restore_cc_on_dynamic_retry();
+
                                 let p = self.machine_st.p;
 
                                 match self
